@@ -172,8 +172,10 @@ def gen_model_ir(r, name, explicit_pk):
         if p["typ"].startswith("Optional["):
             p.pop("default", None)
     if explicit_pk:
-        k = list(ir["params"])[0]
+        # the key column stands first, in the middle or last (a fall-back to "the first column" must not be what finds it)
+        k = r.choice(list(ir["params"]))
         ir["params"][k] = {"doc": "[PK] " + ir["params"][k]["doc"], "typ": r.choice(("int", "str"))}
+        ir["_pk"] = k
     return ir
 
 
@@ -186,6 +188,7 @@ def run_case(ctx, P, stream, idx):
         expect, tuples = [], []
         for nm in names:
             ir = gen_model_ir(r, nm, True)
+            ir.pop("_pk", None)
             schema = hops.emit(ir, "json_schema")[0]
             route = r.choice(("/api/%s", "/v1/%s", "/%s")) % nm.lower()
             pk = r.choice(("id", nm.lower() + "_id", "name"))
@@ -214,6 +217,7 @@ def run_case(ctx, P, stream, idx):
         for j, nm in enumerate(names):
             explicit = r.random() < 0.6
             ir = gen_model_ir(r, nm, explicit)
+            pk_name = ir.pop("_pk", None)
             inferred_pk = inferred_pk or not explicit
             cls_name = "".join(p.title() for p in nm.replace("_tbl", "").split("_")) if "_" in nm else nm
             src = "from sqlalchemy import Column, Integer, String, Float, Boolean, Enum, Identity\n\n\n" + hops.emit(
@@ -235,8 +239,10 @@ def run_case(ctx, P, stream, idx):
                 ok = False
                 break
             parsed = cdd.sqlalchemy.parse.sqlalchemy(__import__("ast").parse(src).body[-1])
-            pk = next((k for k, v in parsed["params"].items() if (v.get("doc") or "").startswith("[PK]")),
-                      list(parsed["params"])[0])
+            # the key the model was generated with (not what the parser under test says it is); without an explicit key the
+            # item is addressed by what the tool infers
+            pk = pk_name or next((k for k, v in parsed["params"].items() if (v.get("doc") or "").startswith("[PK]")),
+                                 list(parsed["params"])[0])
             schema = cdd.json_schema.emit.json_schema(deepcopy(parsed))
             expect.append({"name": cls_name, "route": route, "id": pk, "crud": crud, "schema": schema,
                            "schema_key": cls_name, "table": nm})
